@@ -1940,6 +1940,30 @@ def result_cases(body):
     return out
 
 
+def canon_int_text(c):
+    """an integer comparison text in canonical form: `(a>=b)` / `!(a<b)` -> `(b<=a)`; `!(a>=b)` / `(a<b)` ->
+    `(a<b)`; `>`/`<=` likewise.  Only for unsigned / integer operands (flipping a float comparison is wrong for
+    NaN)"""
+    c = c.strip()
+    neg = False
+    while c.startswith("!"):
+        neg = not neg
+        c = c[1:]
+    if c.startswith("(") and c.endswith(")") and _balanced(c[1:-1]):
+        inner = c[1:-1]
+    else:
+        inner = c
+    m_ = _re.fullmatch(r"(.+?)(>=|<=|<|>)(.+)", inner)
+    if not m_ or not _balanced(m_.group(1)) or not _balanced(m_.group(3)):
+        return ("!" if neg else "") + c
+    a_, op_, b_ = m_.groups()
+    if neg:
+        op_ = {">=": "<", "<": ">=", "<=": ">", ">": "<="}[op_]
+    if op_ in (">=", ">"):
+        a_, b_, op_ = b_, a_, {">=": "<=", ">": "<"}[op_]
+    return "(%s%s%s)" % (a_, op_, b_)
+
+
 def norm_cond(c):
     """`(!(x))` / `!x` -> canonical text with at most one leading `!`"""
     neg = False
